@@ -204,7 +204,7 @@ pub fn random_op(rng: &mut Rng, ex: &Exec) -> String {
             format!("{} {d} {s}", rng.pick(&["clone", "clone", "clone", "from_ref", "to_ls"]))
         } else if r < 62 {
             let t = rand_text(rng);
-            format!("{} {d} {}", rng.pick(&["from", "from", "try_from", "from_string", "from_box", "from_cow"]), hex(t.as_bytes()))
+            format!("{} {d} {}", rng.pick(&["from", "from", "try_from", "from_string", "from_box", "from_cow", "from_ref_string", "from_unchecked"]), hex(t.as_bytes()))
         } else if r < 74 {
             format!("from_static {d} {}", rng.below(STATIC_TEXTS.len()))
         } else if r < 84 {
@@ -271,9 +271,10 @@ pub fn random_op(rng: &mut Rng, ex: &Exec) -> String {
         format!("extend_strs {h} {}", items_strs(rng, true, false))
     } else if r < 92 {
         format!("write {h} {}", items_strs(rng, false, false))
-    } else if r < 93 {
+    } else if r < 94 {
         let t = short_text(rng);
-        format!("add_assign {h} {}", hex(t.as_bytes()))
+        // `s += t` and `s = s + t` (the by-value operator consumes the handle and hands it back)
+        format!("{} {h} {}", if rng.chance(50) { "add" } else { "add_assign" }, hex(t.as_bytes()))
     } else if r < 97 {
         format!("drop {h}")
     } else {
